@@ -58,8 +58,11 @@ ASSUMPTIONS = [
     "features in [-4, 4], weights in [0.1, 5], cost_matrix=None",
 ]
 PROFILE = {
-    "quick": dict(examples=1200, shards=16, budget_s=100),
-    "thorough": dict(examples=20000, shards=16, budget_s=1100),
+    # ~12-15 cases/s per shard on a free core (sklearn input validation
+    # dominates: 3 prediction kinds x (wrapper, twin, fresh reference) after
+    # every operation)
+    "quick": dict(examples=900, shards=16, budget_s=110),
+    "thorough": dict(examples=12000, shards=16, budget_s=1100),
 }
 
 KINDS = ["pwc", "gnb", "dt"]
@@ -368,12 +371,9 @@ def _case(draw):
                 idx = _idx_list(draw, n, 1, n + 2, unique=uniq)
             y = (_labels(draw, case, len(idx))
                  if draw(st.integers(0, 2)) == 0 else None)
-            if case["w"] is not None or native:
-                w = (_weights(draw, len(idx))
-                     if draw(st.integers(0, 2)) == 0 else None)
-            else:
-                w = (_weights(draw, len(idx))
-                     if draw(st.integers(0, 2)) == 0 else None)
+            # (a fit starts a new multiset: weights may be given or not)
+            w = (_weights(draw, len(idx))
+                 if draw(st.integers(0, 2)) == 0 else None)
             # (keep the base of the constructor alive when the history is
             # going to contain the invalid "base from init" call)
             keep_init_base = (model.base_init and not native
